@@ -160,6 +160,44 @@ def make_math(obj: dict, bounds):
                 s += z * z
             return -math.inf if s < rad * rad else s
 
+    elif fam == "intpen":
+        # a float objective with an integer literal on one branch (`return 100` for a rejected point): mixed return types
+        thr = float(obj.get("thr", 0.35))
+
+        def g(x):
+            xs = x.tolist()
+            s = 0.0
+            for i in rng:
+                z = (xs[i] - c[i]) / R[i]
+                s += z * z
+            if s > thr:
+                return 100
+            return s
+
+    elif fam == "intval":
+        # an integer-valued objective that returns python ints (a count), never floats
+        q = float(obj.get("q", 8.0))
+
+        def g(x):
+            xs = x.tolist()
+            s = 0.0
+            for i in rng:
+                z = (xs[i] - c[i]) / R[i]
+                s += z * z
+            return int(math.floor(q * s))
+
+    elif fam == "f32":
+        # values returned as numpy float32 scalars (e.g. the output of a float32 model)
+        import numpy as _np
+
+        def g(x):
+            xs = x.tolist()
+            s = 0.0
+            for i in rng:
+                z = (xs[i] - c[i]) / R[i]
+                s += z * z
+            return _np.float32(s) if s > 0.05 else s
+
     elif fam == "absv":
 
         def g(x):
@@ -212,6 +250,10 @@ def gen_objective(rng, d: int, fam: str | None = None) -> dict:
         obj["off"] = rng.choice([1e6, 1e9, -1e9])
     elif fam == "pit":
         obj["rad"] = rng.choice([0.1, 0.2, 0.3])
+    elif fam == "intpen":
+        obj["thr"] = rng.choice([0.2, 0.35, 0.5])
+    elif fam == "intval":
+        obj["q"] = rng.choice([4.0, 8.0, 30.0])
     elif fam == "face":
         side = [rng.choice([-1, 1, 0]) for _ in range(d)]
         if not any(side):
